@@ -1,0 +1,28 @@
+//go:build verif
+
+// Verification hooks for property C08 (build tag "verif", add-only, read-only): the size of the
+// pending-request tables of the client transports.
+
+package mcp
+
+// VerifClientPending returns the number of entries in the pending-request table of the client's
+// transport (legacy SSE: responses; Streamable HTTP keeps no table: 0), -1 for an unknown transport.
+func VerifClientPending(c *Client) int {
+	switch t := c.transport.(type) {
+	case *sseClientTransport:
+		t.responsesMu.RLock()
+		defer t.responsesMu.RUnlock()
+		return len(t.responses)
+	case *streamableHTTPClientTransport:
+		return 0
+	}
+	return -1
+}
+
+// VerifStdioClientPending returns the number of entries in the stdio transport's pendingRequests table.
+func VerifStdioClientPending(c *StdioClient) int {
+	t := c.transport
+	t.pendingMutex.RLock()
+	defer t.pendingMutex.RUnlock()
+	return len(t.pendingRequests)
+}
